@@ -673,6 +673,64 @@ MUTANTS = [
     dict(id="c09-revert-d20-interface-id-rename", prop="C09", expect="R09.3|rename-interface-id", file="crates/wac-types/src/aggregator.rs",
          old="""                        self.types[id].id = Some(name.to_string());""",
          new="""                        let _ = id;"""),
+    dict(id="c09-interface-search-gives-up-early", prop="C09", expect="R09.3|search-complete|find_semver_compatible_interface", file="crates/wac-types/src/aggregator.rs",
+         old="""        for (existing_name, id) in &self.interfaces {
+            if let Some((existing_alt, _)) = alternate_lookup_key(existing_name) {
+                if existing_alt == alt_key {
+                    return Some(*id);
+                }
+            }
+        }""",
+         new="""        for (existing_name, id) in &self.interfaces {
+            let (existing_alt, _) = alternate_lookup_key(existing_name)?;
+            if existing_alt == alt_key {
+                return Some(*id);
+            }
+        }"""),
+    dict(id="c09-merge-skips-existing-exports", prop="C09", expect="R09.1|every-entry|merge_interface", file="crates/wac-types/src/aggregator.rs",
+         old="""        // Merge the interface's exports
+        for (name, source_kind) in &types[id].exports {
+            if let Some(target_kind) = self.types[existing].exports.get(name).copied() {""",
+         new="""        // Merge the interface's exports
+        for (name, source_kind) in &types[id].exports {
+            if name.starts_with('[') {
+                continue;
+            }
+            if let Some(target_kind) = self.types[existing].exports.get(name).copied() {"""),
+    dict(id="c07-variant-cases-map-equality", prop="C07", expect="R07.7|eq|checker::SubtypeChecker::variant", file="crates/wac-types/src/checker.rs",
+         old="""    fn variant(&self, a: &Variant, at: &Types, b: &Variant, bt: &Types) -> Result<()> {
+        if a.cases.len() != b.cases.len() {""",
+         new="""    fn variant(&self, a: &Variant, at: &Types, b: &Variant, bt: &Types) -> Result<()> {
+        if std::ptr::eq(at, bt) && a.cases == b.cases {
+            return Ok(());
+        }
+        if a.cases.len() != b.cases.len() {"""),
+    dict(id="c01-result-index-before-err-operand", prop="C01", expect="R01.1|encoding::TypeEncoder::result", file="crates/wac-graph/src/encoding.rs",
+         old="""        let err = err.map(|ty| self.value_type(state, ty));
+        let index = state.current.encodable.type_count();
+        state.current.encodable.ty().defined_type().result(ok, err);""",
+         new="""        let index = state.current.encodable.type_count();
+        let err = err.map(|ty| self.value_type(state, ty));
+        state.current.encodable.ty().defined_type().result(ok, err);"""),
+    dict(id="c05-dependency-instance-cached-as-interface-type", prop="C05", expect="R05.7|writer|Scope::type_indexes", file="crates/wac-graph/src/encoding.rs",
+         old="""        let index = self.instance(state, id, !state.scopes.is_empty());""",
+         new="""        let index = self.instance(state, id, !state.scopes.is_empty());
+        state.current.type_indexes.insert(Type::Interface(id), index);"""),
+    dict(id="c05-include-imports-checked-against-exports", prop="C05", expect="R05.8|include-namespace", file="crates/wac-parser/src/resolution.rs",
+         old="""                ExternKind::Import,
+                &mut replacements,
+            )?;
+            ty.imports.entry(name).or_insert(*item);""",
+         new="""                ExternKind::Export,
+                &mut replacements,
+            )?;
+            ty.imports.entry(name).or_insert(*item);"""),
+    dict(id="c10-semver-scan-skips-first-import", prop="C10", expect="R10.1|semver-scan-whole-map", file="crates/wac-graph/src/plug.rs",
+         old="""                        .iter()
+                        .find(|(import_name, _)| are_semver_compatible(name, import_name))""",
+         new="""                        .iter()
+                        .skip(1)
+                        .find(|(import_name, _)| are_semver_compatible(name, import_name))"""),
     dict(id="c12-lexical-comment-needs-newline", prop="C12", expect="R12.10|pattern|Token::Comment", file="crates/wac-parser/src/lexer.rs",
          old="""    #[regex(r"//[^\\n]*", logos::skip)]""", new="""    #[regex(r"//[^\\n]*\\n", logos::skip)]"""),
     dict(id="c12-lexical-ident-digit-start", prop="C12", expect="R12.10|pattern|Token::Ident", file="crates/wac-parser/src/lexer.rs",
